@@ -248,3 +248,43 @@ Proof.
   split; [reflexivity|]. split; [reflexivity|]. split; [|split; reflexivity].
   repeat constructor; simpl; intuition discriminate.
 Qed.
+
+(** * The emulation compute unit's completion path (VCp.CuCompletion) *)
+From VCp Require Import CuCompletion CuCompletionProofs.
+
+(** Every accepted MapWGReq is reported complete at most once and is never
+    lost: for every sequence of deliveries (distinct IDs), CU ticks, emulation
+    events, WGCompleteEvents (including the retries after a refused Send) and
+    retrievals, each accepted ID is in exactly one of the stages "in the port",
+    "resident", "finished, not yet reported", "reported"; the finished and the
+    reported IDs are duplicate-free and were all accepted; the messages taken by
+    the network followed by those still in the port are exactly the messages sent. *)
+Theorem cu_completion_exactly_once : forall ic oc evs,
+  NoDup (deliv_ids evs) ->
+  let s := crun (init_cust ic oc) evs in
+  NoDup (finished s ++ concat (g_sent s)) /\
+  (forall x, In x (finished s ++ concat (g_sent s)) -> In x (g_deliv s)) /\
+  (forall x, In x (g_deliv s) ->
+     cnt x (q_in s) + cnt x (wfs s) + cnt x (finished s) + cnt x (concat (g_sent s)) = 1) /\
+  g_retr s ++ q_out s = g_sent s.
+Proof.
+  intros ic oc evs Hn s.
+  assert (HI : CInv s).
+  { apply crun_inv; auto. apply init_cinv. }
+  destruct HI as [Hst Ho _ _ Hp].
+  assert (Hle : forall x, cnt x (finished s ++ concat (g_sent s)) <= cnt x (g_deliv s)).
+  { intros x. rewrite cnt_app. specialize (Hst x). unfold stages in Hst. lia. }
+  split; [apply cnt_le1_NoDup; intros x; specialize (Hle x); specialize (Ho x); lia|].
+  split; [intros x Hx; apply cnt_in in Hx; apply cnt_in; specialize (Hle x); lia|].
+  split; [|exact Hp].
+  intros x Hx. apply cnt_in in Hx. specialize (Hst x). specialize (Ho x). unfold stages in Hst. lia.
+Qed.
+Print Assumptions cu_completion_exactly_once.
+
+(** non-vacuity: the second work-group finishes while the first completion
+    message still occupies the one-entry port; its event is retried twice. *)
+Example demo_cu_retry :
+  let s := crun (init_cust 1 1)
+    [CDeliver 1%N; CTick; CEmu; CHandle; CDeliver 2%N; CTick; CEmu; CHandle; CHandle; CHandle; CRetr; CHandle; CRetr] in
+  g_retr s = [[1%N]; [2%N]] /\ pending s = [] /\ finished s = [].
+Proof. vm_compute. repeat split; reflexivity. Qed.
